@@ -36,6 +36,17 @@ func init() {
 	mut("C38", "revert-fix-idempotent-bond", "internal/chain/bond.go", "\tif bonded {\n\t\treturn true, nil\n\t}\n", "\t_ = bonded\n", "Bond adds the fee again for an already bonded transaction")
 	mut("C38", "unbond-without-record", "internal/chain/bond.go", "\tif errors.Is(err, database.ErrNotFound) {\n\t\t// Make this operation idempotent if the tx was already unbonded\n\t\t// previously\n\t\treturn nil\n\t}\n\tif err != nil {\n\t\treturn fmt.Errorf(\"failed to get tx fee: %w\", err)\n\t}", "\tif err != nil && !errors.Is(err, database.ErrNotFound) {\n\t\treturn fmt.Errorf(\"failed to get tx fee: %w\", err)\n\t}\n\tif len(feeBytes) < 8 {\n\t\tfeeBytes = make([]byte, 8)\n\t}", "Unbond of an unknown transaction still writes")
 
+	mut("C28", "revert-fix-unchecked-copy", "codec/address.go", "\taddr, err := ToAddress(decoded)\n\tif err != nil {\n\t\treturn err\n\t}\n\t*a = addr\n\treturn nil", "\tcopy(a[:], decoded)\n\treturn nil", "payload of any length accepted")
+	mut("C28", "checksum-not-compared", "codec/address.go", "\tif !bytes.Equal(checksum, hashing.Checksum(originalBytes, checksumLen)) {\n\t\treturn nil, ErrBadChecksum\n\t}", "\t_ = bytes.Equal(checksum, hashing.Checksum(originalBytes, checksumLen))", "checksum ignored")
+	mut("C15", "revert-fix-trailing-bytes", "chain/chaintest/action.go", "\tif p.Offset != len(p.Bytes) {\n\t\treturn nil, avacodec.ErrExtraSpace\n\t}\n\treturn t, nil\n}\n\nfunc (t *TestAction) ComputeUnits", "\t_ = avacodec.ErrExtraSpace\n\treturn t, nil\n}\n\nfunc (t *TestAction) ComputeUnits", "decoder accepts trailing bytes")
+	mut("C15", "id-of-unsigned-bytes", "chain/transaction.go", "\ttx.bytes = r.B\n\ttx.size = len(tx.bytes)\n\ttx.id = utils.ToID(tx.bytes)", "\ttx.bytes = r.B\n\ttx.size = len(tx.bytes)\n\ttx.id = utils.ToID(unsignedTxBytes)", "ID not bound to the full encoding")
+	mut("C15", "nil-tx-accepted", "chain/stateless_block.go", "\t\tif tx == nil {\n\t\t\treturn fmt.Errorf(\"%w at index %d\", ErrNilTxInBlock, i)\n\t\t}", "\t\t_, _ = tx, i", "nil transaction in block accepted")
+	mut("C17", "wrong-type-id-in-address", "auth/secp256r1.go", "return codec.CreateAddress(SECP256R1ID, utils.ToID(pk[:]))", "return codec.CreateAddress(ED25519ID, utils.ToID(pk[:]))", "address carries another scheme's type ID")
+	mut("C17", "decoder-size-relaxed", "auth/ed25519.go", "if len(bytes) != ED25519Size {", "if len(bytes) < ED25519Size {", "auth decoder accepts trailing bytes")
+	mut("C17", "low-s-check-dropped", "crypto/secp256r1/secp256r1.go", "\tif !normalizedS(s) {\n\t\treturn false\n\t}\n\n\t// Check if signature is valid", "\t// Check if signature is valid", "malleable high-S signatures verify")
+	mut("C14", "revert-fix-action-prefix", "chain/transaction.go", "\t\tbandwidth += uint64(len(canoto__SerializeTx__Actions__tag)) + canoto.SizeBytes(actionBytes)", "\t\tbandwidth += uint64(len(actionBytes))", "per-action prefix not budgeted")
+	mut("C14", "maxfee-from-units-of-one-dimension", "chain/transaction.go", "\tmaxFee, err := fees.MulSum(unitPrices, units)", "\tmaxFee, err := fees.MulSum(unitPrices, fees.Dimensions{units[0]})", "max fee ignores four dimensions")
+
 	vw := "internal/validitywindow/validitywindow.go"
 	mut("C10", "expiry-boundary", vw, "case containerTimestamp < executionTimestamp:", "case containerTimestamp <= executionTimestamp:", "expiry equal to block time rejected")
 	mut("C10", "future-boundary", vw, "case containerTimestamp > executionTimestamp+validityWindow:", "case containerTimestamp >= executionTimestamp+validityWindow:", "upper boundary off by one")
